@@ -25,7 +25,14 @@ without signer / a name that is no name): it raises, nothing is pending, nothing
 Events: [t, 'd', k, 'lp'] = the Data arrives wrapped in an LpPacket; [t, 'b', [packet, ..]] = several packets
 (['d', k] / ['n', name, dig, reason]) in ONE loop turn.
 
-The model (NdnModel/Pit.lean) covers all of it.  Events that share a loop turn with each other or with a timer may
+The model (NdnModel/Pit.lean) covers all of it.  Third hardening round.  Case: 'via' = 'stream' | 'unix': the packets of the history are not handed to face.callback
+but written into the byte stream of a real TcpFace / UnixFace whose own run() loop frames them (apphelp.TransportRig);
+the packets of a 'b' event are ONE chunk of that stream; 'seg' = the chunk is cut into segments of that many bytes
+(0 = not cut), 'gap' = the reader loop runs between two segments.  For every case: the packet handed to the caller
+(name, content, raw packet) is kept as bytes when the Interest finishes and compared with what the caller holds when
+the history is over.
+
+Events that share a loop turn with each other or with a timer may
 run in any order: the model driver answers with the outcome vectors of all linearisations (`lins`), and the
 implementation must end in one of them; when there is only one, everything observed must be equal.
 
@@ -36,7 +43,7 @@ the clock is advanced to its time and every due timer runs to quiescence.
 import asyncio
 import hashlib
 
-from apphelp import AppRig
+from apphelp import AppRig, TransportRig
 from props import pit_extract
 
 PROP = 'C03'
@@ -98,7 +105,10 @@ RULE = ('event histories of 2..5 concurrently pending Interests over a 3-level n
         'ApplicationParameters / a signature (name ends in the parameters digest or carries it at a caller-chosen place; '
         'Data with the right / another digest / none), MustBeFresh x FreshnessPeriod, legacy need_raw_packet, Data inside '
         'LpPackets, Nack reasons 0..2^64-1, bursts of Data / Nack in one loop turn, lifetime 0, no_response (both '
-        'front-ends), awaits 20..300 ms late (inside and outside the lifetime / the 100 ms grace). Every case is put to '
+        'front-ends), awaits 20..300 ms late (inside and outside the lifetime / the 100 ms grace); histories whose packets arrive '
+        'through the real stream transport (TcpFace / UnixFace run() framing an in-memory byte stream: several packets '
+        'in one chunk, chunks cut into 1 / 7 / 40 / 1460-byte segments, packets arriving while a validator decides); the '
+        'name / content / raw packet handed to the caller are compared again when the history is over. Every case is put to '
         'the model. non-trivial = at least two Interests '
         'and at least one Interest finished by something other than its own timeout; distinct = distinct histories')
 
@@ -516,6 +526,18 @@ def cases(rng, tier):
         yield gen_crowd(rng, 'v1' if k % 2 == 0 else 'v2')
     for k in range(150 if tier == 'quick' else 2000):
         yield gen_reuse(rng, 'v1' if k % 2 == 0 else 'v2')
+    # third hardening round: the packets of a history reach the application through the REAL stream transport
+    # (TcpFace / UnixFace, the library's StreamFace.run reading the byte stream): several packets in one chunk,
+    # chunks cut into segments (with and without the reader running in between), packets arriving while validators
+    # are still deciding; what the application handed to the caller is looked at again when the history is over
+    for k in range(300 if tier == 'quick' else 5000):
+        c = gen_history(rng, 'v2' if k % 2 == 0 else 'v1', p_ap=0.1, p_burst=0.5, p_odd=0.1,
+                        p_defer=0.1 if k % 3 == 0 else 0.0)
+        c.pop('rx', None)
+        c['via'] = 'unix' if k % 4 >= 2 else 'stream'
+        c['seg'] = [0, 0, 0, 1, 7, 40, 1460][rng.randrange(7)]
+        c['gap'] = bool(c['seg']) and rng.random() < 0.5
+        yield c
     if tier == 'thorough':
         # all histories of <= 5 events over a two-Interest alphabet (same name), both front-ends
         import itertools
@@ -867,7 +889,7 @@ class Run:
             return await co
         task = self.rig.loop.create_task(go())
         self.tasks.append(task)
-        task.add_done_callback(lambda _t, i=i: self.done_at.__setitem__(i, self.now()))
+        task.add_done_callback(lambda _t, i=i: self.mark_done(i, _t))
         self.rig.loop.settle()
 
     def refuse(self, ev):
@@ -916,8 +938,44 @@ class Run:
                 return await co
             task = self.rig.loop.create_task(go())
             self.tasks[i] = task
-            task.add_done_callback(lambda _t, i=i: self.done_at.__setitem__(i, self.now()))
+            task.add_done_callback(lambda _t, i=i: self.mark_done(i, _t))
             self.rig.loop.settle()
+
+    def returned_bytes(self, t):
+        """what the caller holds once its Interest has finished with a Data packet (or a validation failure carrying
+        one), as plain bytes: [name, content(, raw packet)]; None when it holds no packet"""
+        enc, types, _, _ = _lib()
+        try:
+            if t.cancelled():
+                return None
+            e = t.exception()
+            if e is None:
+                r = t.result()
+                out = [bytes(enc.Name.to_bytes(r[0])), bytes(r[1] if self.fe == 'v2' else r[2])]
+                if self.fe == 'v1' and len(r) == 4:
+                    out.append(bytes(r[3]))
+                return out
+            if isinstance(e, types.ValidationFailure):
+                return [bytes(enc.Name.to_bytes(e.name)), bytes(e.content) if e.content is not None else b'']
+        except Exception as x:      # noqa
+            return ['unreadable', type(x).__name__]
+        return None
+
+    def mark_done(self, i, t):
+        self.done_at[i] = self.now()
+        self.held[i] = self.returned_bytes(t)         # looked at again when the history is over (outcome)
+
+    def feed_stream(self, blob):
+        """the peer's bytes reach the real stream face: in one chunk, or cut into segments of case['seg'] bytes (with
+        case['gap'] the reader loop runs between two segments)"""
+        seg, r = self.case.get('seg') or 0, self.rig.face.reader
+        if seg <= 0:
+            r.feed_data(bytes(blob))
+            return
+        for p in range(0, len(blob), seg):
+            r.feed_data(bytes(blob[p:p + seg]))
+            if self.case.get('gap'):
+                self.rig.loop.settle()
 
     def packet(self, p):
         """wire of a scripted packet: ['d', k] or ['n', name, dig, reason]"""
@@ -956,6 +1014,12 @@ class Run:
         if e is None:
             r = t.result()
             d = self.data_id(r[1] if self.fe == 'v2' else r[2])
+            # the packet the caller was given is still that packet now that the history is over (later packets have
+            # arrived since), and it is the Data it claims to be: name and content of one and the same Data
+            if self.held.get(i) != self.returned_bytes(t):
+                return ['internal', 'ReturnedPacketChangedAfterCompletion', at]
+            if 0 <= d < len(self.wires) and self.held[i][0] != self.wire_names[d]:
+                return ['internal', 'ReturnedNameIsNotTheDataName', at]
             if self.fe == 'v1' and bool(self.specs[i].get('nrp')) != (len(r) == 4):
                 return ['internal', 'ResultShape%d' % len(r), at]
             if self.fe == 'v1' and len(r) == 4 and not (0 <= d < len(self.wires) and bytes(r[3]) == self.wires[d]):
@@ -968,6 +1032,8 @@ class Run:
         if isinstance(e, types.InterestCanceled):
             return ['cancelled', at]
         if isinstance(e, types.ValidationFailure):
+            if self.held.get(i) != self.returned_bytes(t):
+                return ['internal', 'ReturnedPacketChangedAfterCompletion', at]
             return ['valfail', self.data_id(e.content), verdict_name(types, e.result), at]
         if isinstance(e, (ScriptedError, TimeoutError)):
             return ['verr', at]
@@ -976,6 +1042,11 @@ class Run:
     def receive(self, wire):
         """hand one packet to the application as the stream / UDP faces do (one task per packet, not awaited by
         anybody); the task is kept so that whatever escapes it is seen"""
+        if self.case.get('via'):
+            # through the real transport: the library's own StreamFace.run cuts the byte stream into packets and
+            # starts the reception tasks itself (what escapes them reaches the loop's exception handler)
+            self.feed_stream(wire)
+            return None
         rx = self.case.get('rx')
         buf = wire if rx is None else bytearray(wire) if rx == 'ba' else memoryview(wire) if rx == 'mv' else \
             memoryview(bytearray(wire))
@@ -1032,16 +1103,19 @@ class Run:
     def run(self):
         enc, types, ndnlp, Signer = _lib()
         case = self.case
-        with AppRig(self.fe, t0=T0) as rig:
+        with (TransportRig(self.fe, via=case['via'], t0=T0) if case.get('via') else AppRig(self.fe, t0=T0)) as rig:
             self.rig = rig
+            self.held = {}
             self.wires = [bytes(enc.make_data(mk_name(enc, d['name']), enc.MetaInfo(freshness_period=d.get('fp')),
                                               b'D%d' % d['content'], signer=Signer())) for d in case['datas']]
             if case.get('bad_sig'):
                 # every Data carries a corrupted DigestSha256 signature (matters to the legacy default validator only)
                 self.wires = [w[:-1] + bytes([w[-1] ^ 0xff]) for w in self.wires]
             self.sig2data = {}
+            self.wire_names = []
             for k, w in enumerate(self.wires):
-                _, _, _, sig = enc.parse_data(w)
+                dn, _, _, sig = enc.parse_data(w)
+                self.wire_names.append(bytes(enc.Name.to_bytes(dn)))
                 self.sig2data[bytes(sig.signature_value_buf)] = case['datas'][k]['content']
             self.tasks, self.specs, self.done_at, self.vcalls, steps = [], [], {}, [], []
             self.noresp = {}
@@ -1071,9 +1145,12 @@ class Run:
                     rig.loop.settle()
                 elif k == 'b':
                     # as a stream face does when one read holds several packets: one task per packet, one loop turn
-                    for q in ev[2]:
-                        w = self.packet(q)
-                        if w is not None:
+                    ws = [w for w in (self.packet(q) for q in ev[2]) if w is not None]
+                    if case.get('via'):
+                        if ws:
+                            self.feed_stream(b''.join(ws))      # ONE chunk of the byte stream holds all of them
+                    else:
+                        for w in ws:
                             self.receive(w)
                     rig.loop.settle()
                 elif k == 'c':
